@@ -11,9 +11,10 @@ try:
     hooks_commits = [l.split()[0] for l in out.splitlines() if " verif hook" in l or l.split(" ", 1)[1].startswith("verif:")]
 except Exception:
     pass
+ready = set(open(os.path.join(V, "py", "ready.txt")).read().split())
 checks = []
 for pid in allids:
-    if pid not in props.PROPS:
+    if pid not in props.PROPS or pid not in ready:
         continue
     P = props.PROPS[pid]
     checks.append({
@@ -27,7 +28,7 @@ for pid in allids:
         "level_note": P.get("level_note", ""),
         "technique": P.get("technique", "machine-checked proof in Rocq (Coq 8.16.1) over a hand-written executable model; model tied to the code by a differential correspondence check evaluated inside Coq (vm_compute)"),
     })
-na = [{"property_id": pid, "reason": props.NOT_YET.get(pid, "not claimed in this commit: model and theorems exist in coq/theories but the correspondence harness for this property is not wired yet")} for pid in allids if pid not in props.PROPS]
+na = [{"property_id": pid, "reason": props.NOT_YET.get(pid, "not claimed in this commit: model and theorems exist in coq/theories but the correspondence harness for this property is not wired yet")} for pid in allids if pid not in props.PROPS or pid not in ready]
 m = {
     "version": 1,
     "setup_cmd": "bin/setup",
